@@ -62,6 +62,8 @@ Ct(n, dom, unit, per, d) == [n |-> n, k |-> "count", dom |-> dom, acc |-> {}, un
 Os(n, dom, d)    == [n |-> n, k |-> "osize", dom |-> dom, acc |-> {}, unit |-> 1, per |-> 1, dev |-> d]
 Sl(n)            == [n |-> n, k |-> "seal", dom |-> {"keep", "fix"}, acc |-> {}, unit |-> 1, per |-> 0, dev |-> "-"]
 
+NameOffsets == {"n:0", "n:1", "n:2", "n:3", "n:4", "n:5", "n:6", "n:7", "n:8", "n:9", "n:10", "n:11", "n:12", "n:13",
+                "n:14", "n:15", "n:16", "n:17", "n:18", "n:19", "n:20"}
 BlteRow == <<Mg("magic"), Ct("header_size", C32, 1, 0, "-"),
              EnD("flags", {"zero", "typ", "over", "max"}, {"typ", "over"}, "F02a"),
              Ct("chunk_count", C16, 24, 0, "-"),
@@ -137,13 +139,22 @@ Row(fmt) ==
          <<En("key_name_size", {"zero", "typ", "max"}, {"zero", "typ", "max"}),
            En("iv_size", {"zero", "typ", "max"}, {"zero", "typ", "max"}),
            EnD("enc_type", {"zero", "typ", "n:65", "over", "max"}, {"typ", "n:65"}, "F02o")>>
+    [] fmt = "dirnames" ->
+         \* a directory entry name is disk input too: kind (0 .idx, 1 .lru, 2 data.NNN), a 1-byte (not UTF-8),
+         \* 2-byte or 3-byte character at byte offset `off`, one byte shorter / longer than the real names, extension
+         \* in upper case.  A scanner ignores a name that is not one of its own: every class is "accepted".
+         <<En("kind", {"n:0", "n:1", "n:2"}, {"n:0", "n:1", "n:2"}),
+           En("off", NameOffsets, NameOffsets),
+           En("wid", {"n:1", "n:2", "n:3"}, {"n:1", "n:2", "n:3"}),
+           En("dlen", {"under", "typ", "over"}, {"under", "typ", "over"}),
+           En("ext", {"typ", "upper"}, {"typ", "upper"})>>
     [] fmt = "shmem" ->
          <<En("version", {"zero", "typ", "n:4", "n:5", "max"}, {"typ", "n:4", "n:5"}),
            Ct("max_slots", C32, 8, 8, "F02n"), Ct("direct_max_slots", C32, 8, 8, "F02n")>>
     [] OTHER -> <<>>
 
 Heads == {"blte", "blte_enc_header", "encoding", "archive_index", "root", "install", "download", "size", "tvfs",
-          "patch_archive", "patch_index", "zbsdiff", "local_idx", "lru", "shmem"}
+          "patch_archive", "patch_index", "zbsdiff", "local_idx", "lru", "shmem", "dirnames"}
 Decomp(fmt) == fmt \in {"blte_decompress", "encoding_blte", "tvfs_blte", "zbsdiff_apply"}
 
 FieldNames(fmt) == {Row(fmt)[i].n : i \in 1..Len(Row(fmt))}
@@ -241,7 +252,13 @@ Has(e, n) == n \in DOMAIN e.h
 \* (written with a division: TLC integers are 32-bit)
 Claims(e, n, unit) == Has(e, n) /\ ValGT(e.h[n], e.len \div unit)
 
+\* directory scanners, curated and model-generated name lists: the valid file next to the hostile names
+\* must still be found (mutated lists may contain a well-formed name that legitimately shadows it)
+LostValid(e) ==
+  /\ e.fmt = "dirnames" /\ e.src \in {"fixture", "model"} /\ e.o \in {"ok", "err"} /\ "obs" \in DOMAIN e
+  /\ ~(e.obs.vf_idx /\ e.obs.vf_lru /\ e.obs.vf_data /\ e.obs.vf_cache)
 Symptom(e) ==
+  IF LostValid(e) THEN "lost" ELSE
   IF e.o = "panic" THEN "panic"
   ELSE IF e.o = "hang" THEN "hang"
   ELSE IF e.o = "abort" THEN (IF e.why \in {"alloc", "capacity"} THEN "alloc" ELSE "abort")
@@ -296,6 +313,14 @@ DevExplains(fid, e) ==
     [] fid = "F02o" ->   \* BLTE EncryptedHeader: encryption-type byte other than 'S' / 'A' reaches an expect()
          /\ e.fmt = "blte_enc_header" /\ Symptom(e) = "panic" /\ e.mc = "valid encryption type byte"
          /\ Has(e, "enc_type") /\ ~ValEQ(e.h["enc_type"], 83) /\ ~ValEQ(e.h["enc_type"], 65)
+    [] fid = "F02q" ->   \* IndexManager::parse_index_filename sliced a 14-byte name at byte 2 / 10
+         /\ e.fmt = "dirnames" /\ Symptom(e) = "panic" /\ e.loc = "cascette-client-storage/src/index/mod.rs"
+         /\ e.mc \in {"end byte index N is not a char boundary; it is inside ",
+                     "byte index N is not a char boundary; it is inside ",
+                     "start byte index N is not a char boundary; it is inside "}
+    [] fid = "F02r" ->   \* LruManager::find_latest_lru_file gives up at the first directory entry that is not UTF-8
+         /\ e.fmt = "dirnames" /\ Symptom(e) = "lost" /\ "obs" \in DOMAIN e /\ e.obs.nonutf8
+         /\ e.obs.vf_idx /\ e.obs.vf_data /\ e.obs.vf_cache /\ ~e.obs.vf_lru
     [] fid = "F02p" ->   \* patch index: key size of a block body above 16 copied into 16-byte arrays
          /\ e.fmt = "patch_index" /\ Symptom(e) = "panic"
          /\ e.mc = "range end index N out of range for slice of length N"
